@@ -111,7 +111,8 @@ def conforming_values(mm, objs, fd, rng, wrong=False):
         ok = [i for i, c in enumerate(objs) if c == fd['type'] or fd['type'] in sup[c]]
         bad = [i for i, c in enumerate(objs) if i not in ok]
         if wrong:
-            pool = [['o', i] for i in bad] + [['i', 3], ['s', 1]]
+            # (a CLASSIFIER object offered as a value: the EClass of class 0 / a data type — never a value of a reference)
+            pool = [['o', i] for i in bad] + [['i', 3], ['s', 1], ['k', 0], ['k', -1]]
         else:
             pool = [['o', i] for i in ok]
         return rng.choice(pool) if pool else None
